@@ -71,6 +71,37 @@ def parse(text):
         signal.alarm(0)
 
 
+_STRIP = None
+_BINOP = None
+
+
+def lacks_left_operand(text):
+    """independent necessary condition of the grammar, on the text: an operator that can only be binary
+    (* / ^ & = < > <= >= <>) or a % stands where no operand has ended - at the start, after an opening parenthesis or
+    brace, after a separator or after another operator.  Such text is malformed whatever else it contains."""
+    global _STRIP, _BINOP
+    import re
+    if _STRIP is None:
+        _STRIP = re.compile(r'"(?:[^"]|"")*"|\'(?:[^\']|\'\')*\'')
+        _BINOP = re.compile(r'<=|>=|<>|[*/^&=<>%]')
+    t = text.lstrip()
+    if t.startswith('{='):
+        t = t[2:]
+    elif t.startswith('='):
+        t = t[1:]
+    else:
+        return False
+    if '"' in _STRIP.sub('', t) or "'" in _STRIP.sub('', t):
+        return False                     # an unterminated literal: rejected for that reason, not judged here
+    t = _STRIP.sub('"s"', t)
+    t = re.sub(r'#(?:DIV/0!|N/A|NULL!|NUM!|NAME\?|REF!|VALUE!)', 'E', t, flags=re.I)
+    for m in _BINOP.finditer(t):
+        before = t[:m.start()].rstrip()
+        if not before or before[-1] in '({,;+-*/^&=<>:':
+            return True
+    return False
+
+
 def check(run):
     setup()
     rnd = run.rng
@@ -91,6 +122,8 @@ def check(run):
             run.violation('the parser does not terminate within 10 s', case)
         elif must_reject and r[0] == 'ok':
             run.violation('malformed input (%s) is accepted and read as %s' % (cls, r[1]), case)
+        elif r[0] == 'ok' and lacks_left_operand(text):
+            run.violation('malformed input (an operator without its left operand) is accepted and read as %s' % r[1], dict(case, **{'class': cls + '/missing-left-operand'}))
         try:
             signal.signal(signal.SIGALRM, _alarm); signal.alarm(10)
             Parser().is_formula(text)
@@ -156,7 +189,9 @@ def check(run):
         elif cls == 'missing-operand':
             op = rnd.choice(G.BINOPS)
             text = rnd.choice([good + op, op.replace('-', '*').replace('+', '/') + good, '(' + good + op + ')', a + op + op.replace('-', '*').replace('+', '*') + b,
-                               '()', 'SUM(' + a + op + ')', a + '*', '%' + a, 'SUM(1,%)', '(%)'])
+                               '()', 'SUM(' + a + op + ')', a + '*', '%' + a, 'SUM(1,%)', '(%)',
+                               'SUM(' + a + ',' + op.replace('-', '*').replace('+', '/') + b + ')', 'IF(' + a + ',' + b + ',' + op.replace('-', '&').replace('+', '^') + a + ')',
+                               '{' + a.replace('{1,2}', '1').replace('A1:B2', '1').replace('SUM(1)', '1').replace('(1)', '1').replace('name', '1').replace('A1', '1') + ',' + op.replace('-', '*').replace('+', '/') + '2}'])
         elif cls == 'adjacent-operands':
             if ':' in a + b or a[-1].isalnum() and b[0].isalnum() and not (a[0] == '"' or b[0] == '"'):
                 sep = ''
